@@ -3,6 +3,7 @@
   interpreter used for C11 / C15.
 -/
 import FfuzzyModel.Driver2
+import FfuzzyModel.Spec.Naive
 namespace Ffuzzy.Driver
 open Ffuzzy
 
@@ -27,7 +28,12 @@ def specFin (s : SpecGen) : String :=
   if s.fixed.isSome && s.fixed != some n then all fun _ _ => "ERR(FixedSizeMismatch)"
   else
     let a := Spec.analyze s.payload.toList
-    all fun tr s2 => digestStr (Spec.digestOf a tr s2)
+    -- two specifications: the declarative digest and the reference (naive 32-level) engine
+    let nv := Spec.Naive.feed s.payload.toList
+    all fun tr s2 =>
+      let d1 := digestStr (Spec.digestOf a tr s2)
+      let d2 := digestStr (nv.digest tr s2)
+      if d1 == d2 then d1 else s!"SPECS-DISAGREE({d1},{d2})"
 
 def specLimit : Nat := 70000
 
